@@ -521,5 +521,8 @@ func (b *rBoard) applyEdgeGlob(g *rGlob, e *rEdge) {
 	if e.dead || e.Src.Parent != g.Scope || e.Dst.Parent != g.Scope {
 		return
 	}
+	if e.SrcArrow || !e.DstArrow {
+		return // the pattern is written with ->: it addresses connections of that direction
+	}
 	e.Attrs[g.Key] = g.Value
 }
